@@ -67,43 +67,41 @@ Definition extend_prev (a : arr) (i : nat) (part : list (elem V)) : ares arr :=
     end
   end.
 
-(* one iteration of `for counter in range(rep.shape[0])` *)
+(* one iteration of `for counter in range(rep.shape[0])`, in its two halves *)
+
+(* if not re: ... -- a new row begins: save what we have *)
+Definition new_row (s : st) : ares st :=
+  if s_started s then                                      (*   if started:                    *)
+    match write_row (s_arr s) (s_i s) (cell (s_have_null s) (s_part s)) with
+    | AOk a => AOk (mkSt (S (s_i s)) [] true (s_have_null s) (s_vali s) (s_vals s) a)
+    | AErr x => AErr x
+    end
+  else if 0 <? s_vali s then                               (*   else: if vali > 0:             *)
+    match extend_prev (s_arr s) (s_i s) (s_part s) with
+    | AOk a => AOk (mkSt (s_i s) [] true (s_have_null s) (s_vali s) (s_vals s) a)
+    | AErr x => AErr x
+    end
+  else AOk (mkSt (s_i s) (s_part s) true (s_have_null s) (s_vali s) (s_vals s) (s_arr s)).
+
+(* if de == max_defi: ... elif de > null: ... ; have_null = de == 0 and null *)
+Definition add_level (null : bool) (max_defi : N) (s1 : st) (de : N) : ares st :=
+  if de =? max_defi then                                   (* if de == max_defi:               *)
+    match s_vals s1 with
+    | v :: vs => AOk (mkSt (s_i s1) (Some v :: s_part s1) (s_started s1) ((de =? 0) && null)
+                           (s_vali s1 + 1) vs (s_arr s1))
+    | [] => AErr ValIndex
+    end
+  else if (if null then 1 else 0) <? de then               (* elif de > null:                  *)
+    AOk (mkSt (s_i s1) (None :: s_part s1) (s_started s1) ((de =? 0) && null)
+              (s_vali s1) (s_vals s1) (s_arr s1))
+  else AOk (mkSt (s_i s1) (s_part s1) (s_started s1) ((de =? 0) && null)   (* have_null = ...  *)
+                 (s_vali s1) (s_vals s1) (s_arr s1)).
+
 Definition step (null : bool) (max_defi : N) (s : st) (e : entry) : ares st :=
   let '(re, de) := e in
-  let r1 :=
-    if re =? 0 then                                        (* if not re:                       *)
-      if s_started s then                                  (*   if started:                    *)
-        match write_row (s_arr s) (s_i s) (cell (s_have_null s) (s_part s)) with
-        | AOk a => AOk (mkSt (S (s_i s)) [] true (s_have_null s) (s_vali s) (s_vals s) a)
-        | AErr x => AErr x
-        end
-      else if 0 <? s_vali s then                           (*   else: if vali > 0:             *)
-        match extend_prev (s_arr s) (s_i s) (s_part s) with
-        | AOk a => AOk (mkSt (s_i s) [] true (s_have_null s) (s_vali s) (s_vals s) a)
-        | AErr x => AErr x
-        end
-      else AOk (mkSt (s_i s) (s_part s) true (s_have_null s) (s_vali s) (s_vals s) (s_arr s))
-    else AOk s in
-  match r1 with
+  match (if re =? 0 then new_row s else AOk s) with        (* if not re:                       *)
   | AErr x => AErr x
-  | AOk s1 =>
-    let r2 :=
-      if de =? max_defi then                               (* if de == max_defi:               *)
-        match s_vals s1 with
-        | v :: vs => AOk (mkSt (s_i s1) (Some v :: s_part s1) (s_started s1) (s_have_null s1)
-                               (s_vali s1 + 1) vs (s_arr s1))
-        | [] => AErr ValIndex
-        end
-      else if (if null then 1 else 0) <? de then           (* elif de > null:                  *)
-        AOk (mkSt (s_i s1) (None :: s_part s1) (s_started s1) (s_have_null s1)
-                  (s_vali s1) (s_vals s1) (s_arr s1))
-      else AOk s1 in
-    match r2 with
-    | AErr x => AErr x
-    | AOk s2 =>                                            (* have_null = de == 0 and null     *)
-      AOk (mkSt (s_i s2) (s_part s2) (s_started s2) ((de =? 0) && null)
-                (s_vali s2) (s_vals s2) (s_arr s2))
-    end
+  | AOk s1 => add_level null max_defi s1 de
   end.
 
 Fixpoint run_steps (null : bool) (max_defi : N) (s : st) (es : list entry) : ares st :=
@@ -171,6 +169,7 @@ End Assemble.
 Arguments mkSt {V}. Arguments s_i {V}. Arguments s_part {V}. Arguments s_started {V}.
 Arguments s_have_null {V}. Arguments s_vali {V}. Arguments s_vals {V}. Arguments s_arr {V}.
 Arguments cell {V}. Arguments write_row {V}. Arguments extend_prev {V}. Arguments step {V}.
+Arguments new_row {V}. Arguments add_level {V}.
 Arguments run_steps {V}. Arguments assemble_page {V}. Arguments read_col_v1 {V}.
 Arguments read_col_v2 {V}. Arguments empty_arr {V}.
 
